@@ -17,7 +17,7 @@ def parse_per_cell(t, inp_for_shift=None):
     st = t.next()
     if st == 'PANIC':
         rest = []
-        while t.peek() is not None and t.peek() not in ('R', 'Q'):
+        while t.peek() is not None and t.peek() not in ('R', 'Q', 'D'):
             rest.append(t.next())
         return {'panic': ' '.join(rest)}
     assert st == 'NC', st
@@ -68,61 +68,70 @@ def run(chk):
         P = parse_per_cell(t)
         t.expect('R')
         R = parse_per_cell(t)
-        if 'panic' in P or 'panic' in R:
+        D = None
+        if t.peek() == 'D':
+            t.next()
+            D = parse_per_cell(t)
+        if 'panic' in P or 'panic' in R or (D is not None and 'panic' in D):
             npanic += 1
-            chk.panic_record(r, P.get('panic') or R.get('panic'), rp)
+            chk.panic_record(r, P.get('panic') or R.get('panic') or D.get('panic'), rp)
             continue
         if tol.ill:
             chk.extra_cov['ill_conditioned_skipped'] = chk.extra_cov.get('ill_conditioned_skipped', 0) + 1
             continue
-        for i in range(ng):
-            pc = P['cells'].get(i)
-            rc = R['cells'].get(central * ng + i)
-            where = 'record %d (%s) cell %d' % (r.id, r.family, i)
-            if pc is None or rc is None:
-                chk.violation('impl-vs-impl', 'cell missing, ' + where, rp, key='missing')
-                continue
-            # predicates on the periodic build
-            pf = {}
-            shifted = False
-            for f in pc.faces:
-                if f.right is None:
-                    if f.area is None or f.area > tol.area:
-                        chk.violation('impl-vs-oracle', 'periodic build reports a boundary face of area %s, %s' % (fl(f.area), where), rp, key='boundary-face')
-                    continue
-                st = (0, 0, 0)
-                if f.shift is not None:
-                    ok = all((f.shift[a] in (inp.nw[a], -inp.nw[a], 0)) if a < inp.dim else f.shift[a] == 0 for a in range(3))
-                    if not ok:
-                        chk.violation('impl-vs-oracle', 'face shift %s is not a lattice vector with components in {-w,0,+w} on the periodic axes, %s' % (fl3(f.shift), where), rp, key='shift')
-                        continue
-                    st = tuple(int(f.shift[a] / inp.nw[a]) for a in range(3))
-                    if st == (0, 0, 0):
-                        chk.violation('impl-vs-oracle', 'zero shift reported as Some, %s' % where, rp, key='shift')
-                        continue
-                    shifted = True
-                if f.area is not None and f.area > tol.area:
-                    pf.setdefault((f.right, st), []).append(f)
-            rf = {}
-            for f in rc.faces:
-                if f.right is None:
-                    if f.area is None or f.area > tol.area:
-                        chk.violation('impl-vs-impl', 'central-block cell of the replicated set touches the wall of the tripled box (area %s), %s' % (fl(f.area), where), rp, key='tripled-wall')
-                    continue
-                if f.area is not None and f.area > tol.area:
-                    rf.setdefault((f.right % ng, sh[f.right // ng]), []).append(f)
-            if pc.volume is None or rc.volume is None or abs(pc.volume - rc.volume) > tol.vol:
-                chk.violation('impl-vs-impl', 'periodic cell measure %s differs from the replicated-set cell %s, %s' % (fl(pc.volume), fl(rc.volume), where), rp, key='volume')
-            elif pc.volume > 1000 * tol.vol and not close3(pc.centroid, rc.centroid, 10 * tol.pos):
-                chk.violation('impl-vs-impl', 'periodic cell centroid %s differs from the replicated-set cell %s, %s' % (fl3(pc.centroid), fl3(rc.centroid), where), rp, key='centroid')
-            for key in set(pf) | set(rf):
-                a = sum((f.area for f in pf.get(key, [])), Fraction(0))
-                b = sum((f.area for f in rf.get(key, [])), Fraction(0))
-                if abs(a - b) > 4 * tol.area:
-                    chk.violation('impl-vs-impl', 'face towards generator %d image %s: periodic area %s, replicated-set area %s, %s' % (key[0], key[1], fl(a), fl(b), where), rp, key='face')
-            chk.traces += 1
-            if shifted:
-                chk.nontriv((r.id, i))
+        # both public routes to a periodic tessellation are compared with the replicated set: the per-cell integrals of the
+        # VoronoiIntegrator and the stored faces of Voronoi::build (seen from either side)
+        for route, X in (('VoronoiIntegrator', P), ('Voronoi::build', D)):
+          if X is None:
+            continue
+          for i in range(ng):
+              pc = X['cells'].get(i)
+              rc = R['cells'].get(central * ng + i)
+              where = 'record %d (%s) cell %d, route %s' % (r.id, r.family, i, route)
+              if pc is None or rc is None:
+                  chk.violation('impl-vs-impl', 'cell missing, ' + where, rp, key='missing')
+                  continue
+              # predicates on the periodic build
+              pf = {}
+              shifted = False
+              for f in pc.faces:
+                  if f.right is None:
+                      if f.area is None or f.area > tol.area:
+                          chk.violation('impl-vs-oracle', 'periodic build reports a boundary face of area %s, %s' % (fl(f.area), where), rp, key='boundary-face')
+                      continue
+                  st = (0, 0, 0)
+                  if f.shift is not None:
+                      ok = all((f.shift[a] in (inp.nw[a], -inp.nw[a], 0)) if a < inp.dim else f.shift[a] == 0 for a in range(3))
+                      if not ok:
+                          chk.violation('impl-vs-oracle', 'face shift %s is not a lattice vector with components in {-w,0,+w} on the periodic axes, %s' % (fl3(f.shift), where), rp, key='shift')
+                          continue
+                      st = tuple(int(f.shift[a] / inp.nw[a]) for a in range(3))
+                      if st == (0, 0, 0):
+                          chk.violation('impl-vs-oracle', 'zero shift reported as Some, %s' % where, rp, key='shift')
+                          continue
+                      shifted = True
+                  if f.area is not None and f.area > tol.area:
+                      pf.setdefault((f.right, st), []).append(f)
+              rf = {}
+              for f in rc.faces:
+                  if f.right is None:
+                      if f.area is None or f.area > tol.area:
+                          chk.violation('impl-vs-impl', 'central-block cell of the replicated set touches the wall of the tripled box (area %s), %s' % (fl(f.area), where), rp, key='tripled-wall')
+                      continue
+                  if f.area is not None and f.area > tol.area:
+                      rf.setdefault((f.right % ng, sh[f.right // ng]), []).append(f)
+              if pc.volume is None or rc.volume is None or abs(pc.volume - rc.volume) > tol.vol:
+                  chk.violation('impl-vs-impl', 'periodic cell measure %s differs from the replicated-set cell %s, %s' % (fl(pc.volume), fl(rc.volume), where), rp, key='volume')
+              elif pc.volume > 1000 * tol.vol and not close3(pc.centroid, rc.centroid, 10 * tol.pos):
+                  chk.violation('impl-vs-impl', 'periodic cell centroid %s differs from the replicated-set cell %s, %s' % (fl3(pc.centroid), fl3(rc.centroid), where), rp, key='centroid')
+              for key in set(pf) | set(rf):
+                  a = sum((f.area for f in pf.get(key, [])), Fraction(0))
+                  b = sum((f.area for f in rf.get(key, [])), Fraction(0))
+                  if abs(a - b) > 4 * tol.area:
+                      chk.violation('impl-vs-impl', 'face towards generator %d image %s: periodic area %s, replicated-set area %s, %s' % (key[0], key[1], fl(a), fl(b), where), rp, key='face')
+              chk.traces += 1
+              if shifted:
+                  chk.nontriv((r.id, i))
         if len(chk.samples) < 2 and inp.dim == 3 and ng >= 3:
             chk.sample({'op': 'periodic3', 'family': r.family, 'generators': ng, 'replicated': ng * len(sh), 'cell0_volume': fl(P['cells'][0].volume), 'cell0_faces': len(P['cells'][0].faces)})
     got = run_cells_op(chk, op='translate')
